@@ -39,7 +39,8 @@ def shards(tier, seed):
 def gen_code(rng, kind):
     first = rng.choice(('Client', 'Server'))
     if kind != 'soap12' and rng.random() < .2:
-        first = rng.choice(('Custom', 'Billing', 'X9'))
+        # (first segments that merely begin like the two known ones are others: the class of a code is its first segment)
+        first = rng.choice(('Custom', 'Billing', 'X9', 'ClientCertificate', 'Clientele', 'Clients', 'ServerClient', 'client', 'Client_'))
     segs = [first] + [rng.choice(('Sub', 'Deep', 'E42', 'notFound', 'A_b')) for _ in range(rng.randint(0, 3))]
     return '.'.join(segs)
 
